@@ -9,9 +9,14 @@ func VerifServerStreams(st ServerTransport) (active int, maxStreamID uint32, max
 	if !ok {
 		return -2, 0, 0
 	}
-	t.maxStreamMu.Lock()
-	maxStreamID = t.maxStreamID
-	t.maxStreamMu.Unlock()
+	// operateHeaders holds maxStreamMu while it calls handle(s), which can block in the server's
+	// handler quota: never wait for it (a blocked mutex is not a durable block for synctest).
+	if t.maxStreamMu.TryLock() {
+		maxStreamID = t.maxStreamID
+		t.maxStreamMu.Unlock()
+	} else {
+		maxStreamID = ^uint32(0)
+	}
 	t.mu.Lock()
 	active = len(t.activeStreams)
 	if t.activeStreams == nil {
